@@ -224,7 +224,7 @@ func (x *gen) kids(schemaKids []*sg.Node, depth int) []*D {
 }
 
 func genCase(t *rapid.T) Case {
-	g := &sg.G{T: t, Cfg: sg.GenCfg{MaxMods: 2, NoFeatures: true, NoWhenMust: true, NoRpcs: true, UniqueBias: true}}
+	g := &sg.G{T: t, Cfg: sg.GenCfg{MaxMods: 2, NoFeatures: true, NoWhenMust: true, NoRpcs: true, UniqueBias: true, ConfigFalse: true}}
 	c := Case{Mods: g.GenSet()}
 	// leafref leaves are validated against the data (not part of this property): turn them into strings
 	var strip func(kids []*sg.Node)
